@@ -184,3 +184,37 @@ package qbft
 //@ ensures r1 == nil ==> 0 <= r0 && r0 < int64(len(c.peers)) && c.peers[r0].ID == c.p2pNode.ID()
 //@ loop 1 invariant peerIdx == -1 || (0 <= peerIdx && peerIdx < int64($i) && c.peers[peerIdx].ID == c.p2pNode.ID())
 
+// ---- per-instance transport: what is broadcast is the message the core asked for, with the values its hashes name ----
+//@ pure Msg.ToConsensusMsg Msg.Value Msg.PreparedValue
+
+//@ func (t *transport) Broadcast
+//@ props C02 C03 C05
+//@ callreq t.getValue: a1 != [32]byte{}
+//@ callreq createMsg: a1 == typ && a2 == duty && a3 == peerIdx && a4 == round && a5 == valueHash && a6 == pr && a7 == pvHash && a9 == justification && a10 == t.privkey
+//@ callreq createMsg: a8 == values && (valueHash == [32]byte{} || has(values, valueHash)) && (pvHash == [32]byte{} || has(values, pvHash))
+//@ callreq t.broadcaster.Broadcast: a2 == msg.ToConsensusMsg() && ncalls(createMsg) == 1
+//@ ensures result == nil ==> ncalls(t.broadcaster.Broadcast) == 1 && ncalls(createMsg) == 1
+//@ loop 1 invariant len(hashes) == 2 + 2*$i && hashes[0] == valueHash && hashes[1] == pvHash && ncalls(createMsg) == 0
+//@ loop 2 invariant forall(j, 0, $i, hashes[j] == [32]byte{} || has(values, hashes[j])) && ncalls(createMsg) == 0 && len(hashes) >= 2 && hashes[0] == valueHash && hashes[1] == pvHash
+
+// self-delivery: the instance receives the very message that is broadcast
+//@ func (t *transport) Broadcast$1
+//@ props C02 C03
+//@ callreq send t.recvBuffer: a1 == msg
+
+// incoming messages are handed to the instance unchanged, after their values were recorded
+//@ func (t *transport) ProcessReceives
+//@ props C02 C03 C05
+//@ callreq t.setValues: a1 == msg
+//@ callreq send t.recvBuffer: a1 == msg && ncalls(t.setValues) == ncalls("send t.recvBuffer") + 1
+//@ loop 1 invariant ncalls(t.setValues) == ncalls("send t.recvBuffer")
+
+// the value table: a value proposed locally is recorded under the hash it arrived with; lookups return the recorded
+// value of exactly the requested hash
+//@ pure anypb.New
+//@ func (t *transport) getValue
+//@ props C03 C05
+//@ callreq anypb.New: a1 == pair.Value
+//@ ensures r1 == nil ==> has(t.values, hash) && r0 == t.values[hash]
+//@ ensures ncalls(anypb.New) <= 1
+
